@@ -18,12 +18,21 @@ CLAIMED = {
  "C05": ("exploration", "stateful property-based testing (proptest op histories with shrinking) of a hostile peer against contract-respecting local calls; libFuzzer target in thorough",
          "Random phase-structured histories (handshake, traffic, close, reconnect; all roles, versions incl. undetermined, options) interleave contract-respecting local calls with valid, boundary-valued, mutated and garbage peer frames under arbitrary chunking. Every call must return (catch_unwind, overflow checks and debug assertions on), every recv call must advance the cursor, event lists stay bounded, every complete frame fed is delivered, reported or answered as a QoS2 duplicate, and after notify_closed a fresh handshake is accepted.",
          "The application model is contract-respecting: ids from acquire/register, an id is released only while the application owns it (or was told to release it on send error), PUBREL only after PUBREC, timers fired only when armed. Frame dispositions are counted per op (lower bound). A wedge inside one library call would hit the watchdog (exit 2).", "DESIGN.md §3 C05"),
+ "C06": ("exploration", "model-based stateful property testing against an ordered-store model (proptest histories, shrinking)",
+         "Histories of QoS0/1/2 publishes in all statuses (offline publishing on/off), acknowledgements chosen by index (matching, wrong kind, unknown id, duplicate, v5 error codes), erase_stored_publish, closes and reconnects (clean/persistent, session present or not, Session Expiry in CONNECT and CONNACK), both roles and versions, smaller Maximum Packet Size on resume. After every op get_stored_packets() must equal the model list (ids, kinds, DUP, full topic, no alias, payload), stored ids are held, no accepted publish is silently dropped, unmatched acknowledgements are protocol errors that change neither store nor ids, and a resume re-sends exactly the store in order right after CONNACK.",
+         "Persistence is derived from CONNECT/CONNACK contents (DESIGN.md appendix D); in-flight exchanges from the event-derived application view. Alias-use publishes are left to C13. Known open finding D23 excluded by construction, reported from its witness.", "DESIGN.md §3 C06"),
+ "C07": ("exploration", "model-based stateful property testing against a set model of handled inbound QoS2 ids",
+         "Histories of peer PUBLISH(QoS2, small id alphabet, dup) and PUBREL interleaved with local PUBREC(success/error)/PUBCOMP, automatic responses on/off, closes and reconnects (clean or resumed), and publishes that fail validation before a valid retransmission. A PUBLISH whose id is not handled must be notified exactly once, a handled one must be suppressed and answered with PUBREC; get_qos2_publish_handled() must equal the model set after every op.",
+         "A PUBLISH that produces an error and is not delivered counts as rejected. Export/restore of the set is exercised by C16.", "DESIGN.md §3 C07"),
  "C08": ("exploration", "model-based stateful property testing: a set model of in-use identifiers fed only by announced events, compared with the real in-use set after every op",
          "Random histories of acquire/register/release (0, 1, interior, max; u16 and u32), id-carrying sends with acquired/registered/never-acquired ids, provoked refusals (status, role, version, alias, Receive Maximum, packet size), peer acknowledgements, closes and reconnects. Every NotifyPacketIdReleased must hit an id that is in use; completions, refusals of exchange-initiating sends and closes must release; after every op the verif-hooks in-use set equals the announced history (only a new session may reset it). One deterministic run fills all 65535 u16 ids.",
          "Exchange ownership and session persistence come from an event-derived application view (scn.rs). A refused PUBREL is not required to release. Peer bytes are not fed between a close request and notify_closed. Known open finding D23 is excluded by construction (counted).", "DESIGN.md §3 C08"),
  "C09": ("exploration", "metamorphic/differential property testing of the stream framer (chunking invariance) with exhaustive 1-/2-cut partitions of short streams",
          "Random streams of valid packets, over-long Remaining Lengths and garbage are cut by random, per-byte and header-targeted partitions; PacketBuilder::feed must agree with an independent reference framer (one result per call, no over-read, resume after a bad length) and a chunk-fed connection must produce the same normalised event trace and final state as a whole-frame-fed one. All 1- and 2-cut partitions of 1000 (thorough 10000) short streams are enumerated.",
          "Trusts refcodec::frame as the reference framer. Runs of consecutive id-release events are compared as multisets (hash-set order). A panic in recv is left to C05.", "DESIGN.md §3 C09"),
+ "C12": ("exploration", "model-based stateful property testing against a window model of incomplete exchanges (proptest histories, boundary-biased Receive Maximum)",
+         "v5.0 histories with the peer's Receive Maximum mostly in {1,2,3}: QoS1/2 sends up to and beyond the limit, acknowledgements (success and error), erasures, other refusals, closes and resumes with stored PUBLISH/PUBREL and changed limits. A publish is accepted iff fewer than M exchanges of this connection are incomplete; get_receive_maximum_vacancy_for_send() must equal M minus that number after every op of an established connection; inbound publishes beyond the own Receive Maximum must be refused with DISCONNECT 0x93 and never falsely.",
+         "Exchanges awaited but not retransmitted at a resume (pending PUBREL, awaited without being stored) may be counted from the resume or from their next packet: both readings accepted (range check). Inbound publishes that were not delivered may or may not occupy the window. Applications never abandon an exchange by releasing its id in this profile.", "DESIGN.md §3 C12"),
  "C18": ("exploration", "exhaustive table enumeration against the specification's property table plus random property sets (proptest)",
          "The complete table 27 property kinds x 14 locations x occurrences {1,2} x boundary values is enumerated for the builder path and, through independently encoded bytes, for the parser path; 200k (thorough 3M) random multi-property sets follow. Verdicts must equal MQTT 5.0 table 2-4 plus the value rules, and builder must equal parser.",
          "The oracle table is transcribed in harness/src/ap.rs (PROP_TABLE, prop_value_ok). Authentication Data is always accompanied by an Authentication Method (cross-property rule kept out of the cells).", "DESIGN.md §3 C18"),
